@@ -39,7 +39,9 @@ ASSUMPTIONS = [
     'hierarchies: chain with an abstract middle class; chain whose middle '
     'class is not registered; fan of three siblings under an abstract base '
     '(two of them match the same keys); diamond; siblings with '
-    'discriminating custom recognisers; Union/Optional over their members',
+    'discriminating custom recognisers; a custom recogniser above '
+    'auto-recognised subclasses; Union/Optional over their members, incl. a '
+    'Union one of whose members is ambiguous in itself',
     'documents: a mapping with any subset of the hierarchy\'s keys, each '
     'value a scalar with a FREE tag, top-level tag FREE (any string of '
     'length <= 40)',
@@ -65,6 +67,11 @@ H = [
     ('optional_base', Optional[Shape], [Shape, Circle, Square, Ellipse],
      ['center', 'radius', 'width', 'ratio']),
     ('union_chain', Union[HC, HA, str], [HA, HB, HC], ['a', 'b', 'c']),
+    ('custom_above_auto', zoo.RBase, [zoo.RBase, zoo.RSub, zoo.RSubSub],
+     ['name', 'limit', 'extra']),
+    ('union_ambiguous_member', Union[Shape, zoo.Other],
+     [Shape, Circle, Square, Ellipse, zoo.Other],
+     ['center', 'radius', 'width', 'ratio']),
 ]
 
 
@@ -73,6 +80,8 @@ def _value(key, vtag, kindsel):
         return seq([scalar(T_FLOAT, '1.0')], tag=vtag)
     if key == 'kind':
         return scalar(vtag, pick(['k1', 'k2', 'zz'], kindsel))
+    if key == 'name':
+        return scalar(vtag, 'n')
     if key in ('radius', 'width', 'ratio'):
         return scalar(vtag, '1.5')
     return scalar(vtag, '1')
@@ -139,7 +148,7 @@ def recognizer(p0: bool, p1: bool, p2: bool, p3: bool, t0: str, t1: str,
     # the top tag with well-typed values; mode 1 varies the value tags with
     # all keys present; mode 2 varies the top tag and one value tag over all
     # key subsets of size >= n-1
-    good = [T_SEQ if k == 'center' else T_STR if k == 'kind' else
+    good = [T_SEQ if k == 'center' else T_STR if k in ('kind', 'name') else
             T_FLOAT if k in ('radius', 'width', 'ratio') else T_INT
             for k in H[hi][3]] + [T_INT] * 4
     ts = [t0, t1, t2, t3]
